@@ -36,7 +36,7 @@ ASSUMPTIONS = [
 ]
 FLOORS = {"programs:op-on-id-held-by-other": 0.05, "programs:drop-then-lookup": 0.1, "programs:failing-replace-registered": 0.08}
 
-LEAF_CLASSES = ["LeafA", "LeafB", "SubLeafA", "Falsy", "SlotLeaf"]
+LEAF_CLASSES = ["LeafA", "LeafB", "SubLeafA", "Falsy", "SlotLeaf", "Checked"]
 ORIGINS = [["no"], ["no"], ["code", 0, 0, 1], ["gen", 1], ["multi", [["code", 0, 0, 1], ["gen", 1]]]]
 
 
@@ -149,12 +149,16 @@ class Machine:
             if o[1] % 4 == 0:
                 n = M.cls("Mixed")(child=kids[0] if len(kids) % 2 else None, items=tuple(kids), v=o[3] % 3, origin=org)
             elif o[1] % 4 == 1:
-                n = M.cls("Uni")(one=kids[0], opt=kids[-1] if len(kids) > 1 else None, origin=org)
+                # union field of two node classes; prefer the second alternative
+                un = next((k for k in kids if type(k).__name__ == "LeafB"), None) or next(
+                    (k for k in kids if type(k).__name__ == "LeafA"), None)
+                n = M.cls("Uni")(one=kids[0], opt=kids[-1] if len(kids) > 1 else None, un=un, origin=org)
             elif o[1] % 4 == 2:  # multiple inheritance: the child field comes from the second base
                 n = M.cls("Both")(kid=kids[0], ta=o[3] % 3, tb="t", origin=org)
             else:
                 n = M.cls("TagA")(ta=o[3] % 3, origin=org)
             self.pool.append(n)
+            self.last = len(self.pool) - 1
             self.note_created([n])
             self.check_determinism(n, sigs_before)
         elif kind == "twin":
@@ -206,7 +210,9 @@ class Machine:
                 return
             self._touch(x)
             before = self.lookup_table()
-            how = o[2] % 3
+            how = o[2] % 4
+            if how == 3 and type(x).__name__ != "Checked":
+                how = 0
             if self.registered(x):
                 self.lab.tag("failing-replace-registered")
             try:
@@ -216,6 +222,11 @@ class Machine:
                 elif how == 1:
                     x.replace(id="forced")
                     exp = ValueError
+                elif how == 3:
+                    # the class's own validation fails after the base class has finished its part;
+                    # only a compare=False field changes, so the rejected node has the receiver's id
+                    self.lab.tag("failing-replace-own-post-init")
+                    x.replace(note="bad")
                 else:
                     config.RUNTIME_TYPE_CHECK = True
                     try:
@@ -406,8 +417,10 @@ def st_program(ctx: Ctx):
     macro = st.tuples(sel, st.sampled_from(["detach_self", "detach"]), again, small).map(
         lambda t: [[t[1], t[0]], ["twin", -1], [t[2], -1, t[3]] if t[2] in ("replace_ok", "replace_fail", "roundtrip", "dc_replace") else [t[2], -1]]
     )
+    # a parent is given up (only itself) and read back while its children are still registered
+    reread = st.tuples(new_parent, small).map(lambda t: [t[0], ["detach_self", -1], ["roundtrip", -1, t[1]]])
     one = st.one_of(new_leaf, new_leaf, new_parent, new_parent, *simple.values(), simple["twin"], simple["drop"]).map(lambda o: [o])
-    step = st.one_of(one, one, one, one, macro)
+    step = st.one_of(one, one, one, one, one, macro, reread)
     prog = st.lists(step, min_size=6, max_size=ctx.pick(18, 24)).map(lambda ss: [o for s in ss for o in s][:40])
     start = st.lists(st.one_of(new_leaf, new_leaf, new_parent), min_size=2, max_size=4)
     return st.fixed_dictionaries({"digest": st.sampled_from([1, 2, 8, 8]), "ops": st.tuples(start, prog).map(lambda t: t[0] + t[1])})
